@@ -92,3 +92,4 @@ SCOPE(aead128, aead128) SCOPE(aead128a, aead128a) SCOPE(aead80pq, aead80pq)
 SCOPE(siv128, siv128) SCOPE(siv128a, siv128a) SCOPE(siv80pq, siv80pq)
 SCOPE(isap128a, isap128a) SCOPE(isap128, isap128) SCOPE(isap80pq, isap80pq)
 SCOPE(masked128, aead128_masked) SCOPE(masked128a, aead128a_masked) SCOPE(masked80pq, aead80pq_masked)
+
